@@ -40,11 +40,19 @@ fn one_case_joined(run: &mut Run, defs: &str, text: &str, is_aggregate: bool, li
                 let table = shown.clone().unwrap_or_default();
                 if table != batch.records() {
                     // known finding D60 only if the two tables differ EXACTLY as the finding says: equal once `-0.0 ↦ 0.0`
-                    // (NaN payloads canonical) is applied to every value, different raw — decided at value level
+                    // (NaN payloads canonical) is applied to the GROUP BY KEY columns — the select-list items that are group
+                    // keys — and to no other cell, different raw; decided at value level. A sign difference in a SUM(r) /
+                    // MIN(r) / … cell is not a different representative of a key and stays `incremental-table-differs`.
+                    let key_cols: Vec<bool> = match &prepared.statement {
+                        sqlgrep::Statement::Aggregate(a) => a.aggregates.iter().map(|it| matches!(it.aggregate, sqlgrep::model::Aggregate::GroupKey(_))).collect(),
+                        _ => Vec::new(),
+                    };
                     let last_rows = steps[..k].iter().rev().find_map(|s| s.as_ref());
                     let d60 = match (last_rows, run_batch_rows(&prepared, &lines[..k])) {
                         (Some((fc, fr)), Some((bc, br))) => {
-                            let canon = |rows: &Vec<Vec<sqlgrep::model::Value>>| -> Vec<Vec<sqlgrep::model::Value>> { rows.iter().map(|r| r.iter().map(canon_zero_nan).collect()).collect() };
+                            let canon = |rows: &Vec<Vec<sqlgrep::model::Value>>| -> Vec<Vec<sqlgrep::model::Value>> {
+                                rows.iter().map(|r| r.iter().enumerate().map(|(i, v)| if key_cols.get(i) == Some(&true) && r.len() == key_cols.len() { canon_zero_nan(v) } else { v.clone() }).collect()).collect()
+                            };
                             *fc == bc && render(&bc, &br) == batch.records() && render(fc, &canon(fr)) == render(&bc, &canon(&br))
                         }
                         _ => false,
